@@ -52,16 +52,22 @@ class BaseConstructor:
         return None
 
     def construct_document(self, node):
-        data = self.construct_object(node)
-        while self.state_generators:
-            state_generators = self.state_generators
+        try:
+            data = self.construct_object(node)
+            while self.state_generators:
+                state_generators = self.state_generators
+                self.state_generators = []
+                for generator in state_generators:
+                    for dummy in generator:
+                        pass
+        finally:
+            # Also when construction fails half-way: pending generators refer
+            # back to the constructor and would keep it (and the loader's
+            # stream) alive until the next run of the cyclic garbage collector.
             self.state_generators = []
-            for generator in state_generators:
-                for dummy in generator:
-                    pass
-        self.constructed_objects = {}
-        self.recursive_objects = {}
-        self.deep_construct = False
+            self.constructed_objects = {}
+            self.recursive_objects = {}
+            self.deep_construct = False
         return data
 
     def construct_object(self, node, deep=False):
